@@ -11,11 +11,17 @@
                                     msg_sideb g (p <= 2n: two recovery-id bits suffice;  p <= 2^256: coordinates fit 32 bytes)
    both booleans decided by vm_compute for secp256k1 on Gen/GenCurves.v and for the toy generator (where the
    mathematical premises are decided too: no hypothesis left).  Totality (C17c_verify_total) needs NO mathematical premise.
+   For the SHIPPED secp256k1 generator all four mathematical premises are now THEOREMS (C17c_secp256k1_premises_proved): M1 and
+   M2 by kernel-checked Pocklington certificates (Proofs/CurvePrimesEc.v), M4 by Proofs/EcAssoc.v (associativity of
+   chord-and-tangent addition on every non-singular curve over F_p, p odd prime), n*G = O by a checked double-and-add certificate
+   (Proofs/ShippedOrder.v).  The theorems `C17c_secp256k1_*_unconditional` have NO hypothesis.  For an arbitrary generator M4
+   follows from M1, ec_sideb and the decidable non-singularity (Props/C01compose.v C01c_M4_from_nonsingular).  The general
+   section Secp256k1 (M1, M4, n*G = O, M2 as hypotheses) is kept.
    As in Props/C01compose.v the premise "cofactor 1" is needed only to identify elift with points_for_x on abscissae
    whose points lie outside E[n] (C01c_cofactor1); msg_sideb's p <= 2n fails for bls12_381_g1, which C17 does not use. *)
 From Coq Require Import ZArith List Znumtheory.
 From PV Require Import Base.Bytes Base.Outcome Gen.GenCurves Model.Curve Model.MsgSign
-  Spec.Weierstrass Proofs.CurveP Proofs.ComposeEcInst Proofs.ComposeEcC01 Proofs.ComposeEcC17 Props.C17.
+  Spec.Weierstrass Proofs.CurveP Proofs.ComposeEcInst Proofs.ComposeEcC01 Proofs.ComposeEcC17 Proofs.ComposeEcShipped Props.C17.
 Local Open Scope Z_scope.
 
 Section C17compose.
@@ -130,7 +136,7 @@ Print Assumptions C17c_sign_message_verifies_and_recovers.
 Print Assumptions C17c_other_key_fails.
 Print Assumptions C17c_other_hash_fails.
 
-(* ---- secp256k1 as shipped, any blinding factor: hypotheses exactly M1, M4, n*G = O, M2 ---------------------------- *)
+(* ---- secp256k1 as shipped, any blinding factor: hypotheses exactly M1, M4, n*G = O, M2 (general form; all proved: below) ---- *)
 Theorem C17c_secp256k1_side_conditions : forall blind : Z,
   ec_sideb (secp256k1_gen blind) = true /\ msg_sideb (secp256k1_gen blind) = true /\
   secp256k1_gen blind = shipped_gen (secp256k1_params, secp256k1_bits) blind.
@@ -195,6 +201,104 @@ Print Assumptions C17c_secp256k1_verify_total.
 Print Assumptions C17c_secp256k1_sign_verifies_and_recovers.
 Print Assumptions C17c_secp256k1_other_key_fails.
 Print Assumptions C17c_secp256k1_inverse_and_G_are_C02.
+
+(* ---- secp256k1 as shipped, any blinding factor, with M1, M2, M4 and n*G = O PROVED (Proofs/CurvePrimesEc.v: kernel-checked
+        Pocklington certificates; Proofs/EcAssoc.v: associativity; Proofs/ShippedOrder.v: checked double-and-add certificate):
+        NO hypothesis is left (gen_k, dsha256, hash160 are arbitrary functions, not assumptions) ------------------------------ *)
+Theorem C17c_secp256k1_premises_proved :
+  prime secp256k1_p /\ prime secp256k1_n /\ M4 secp256k1_curve /\ kP secp256k1_curve secp256k1_n secp256k1_G = None.
+Proof. exact (conj secp256k1_M1 (conj secp256k1_M2 (conj secp256k1_M4 secp256k1_nG_proved))). Qed.
+Print Assumptions C17c_secp256k1_premises_proved.
+
+Section Secp256k1_proved.
+  Variable blind : Z.
+  Variable gen_k : Z -> Z -> Z -> Z.
+  Variable dsha256 : bytes -> bytes.
+  Variable hash160 : bytes -> bytes.
+  Local Notation g := (secp256k1_gen blind).
+  Local Notation c := secp256k1_curve.
+  Local Notation n := secp256k1_n.
+  Local Notation p := secp256k1_p.
+  Local Notation G := (eG g).
+  Local Notation pair_for := (pair_for_message_hash (ept c) (eadd c) (esmul c) G n p ecoords (elift g) (einv g)).
+  Local Notation verify := (verify_message (ept c) (eadd c) (esmul c) G n p ecoords (elift g) (einv g) dsha256 hash160).
+  Local Notation sign_hash := (signature_for_message_hash (ept c) (esmul c) G n ecoords (einv g) gen_k).
+  Local Notation sign_msg := (sign_message (ept c) (esmul c) G n ecoords (einv g) gen_k dsha256).
+
+  (* the model's Generator.inverse is C02's inverse_mod(., n) (this used M2 only) *)
+  Theorem C17c_secp256k1_inverse_is_C02 : forall a, MsgSign.inverse n (einv g) a = Curve.inverse_mod a n.
+  Proof. exact (einv_run g secp256k1_M2). Qed.
+
+  Theorem C17c_secp256k1_group_premises_unconditional :
+    1 < n /\
+    (forall a, a mod n <> 0 -> (a * einv g a) mod n = 1) /\
+    (forall a b, esmul c a (esmul c b G) = esmul c (a * b) G) /\
+    (forall a b, eadd c (esmul c a G) (esmul c b G) = esmul c (a + b) G) /\
+    (forall a b, esmul c a G = esmul c b G <-> a mod n = b mod n) /\
+    (forall a, ecoords (esmul c a G) = None <-> a mod n = 0) /\
+    (forall a x y, ecoords (esmul c a G) = Some (x, y) -> 0 <= x < p) /\
+    p <= 2 * n /\
+    (forall a x y, ecoords (esmul c a G) = Some (x, y) ->
+       exists P0 P1, elift g x = Some (P0, P1) /\ (if Z.land y 1 =? 0 then P0 else P1) = esmul c a G) /\
+    (forall a b, ecoords (esmul c a G) = ecoords (esmul c b G) -> esmul c a G = esmul c b G).
+  Proof. exact (C17c_group_premises g secp256k1_M1 secp256k1_M4 secp256k1_nG_proved secp256k1_M2
+                  (secp256k1_side blind) (secp256k1_msg_side blind)). Qed.
+
+  Theorem C17c_secp256k1_G_is_C02_unconditional : eval G = secp256k1_G.
+  Proof. exact (proj2 (C17c_inverse_and_G_are_C02 g secp256k1_M1 secp256k1_nG_proved secp256k1_M2 (secp256k1_side blind))). Qed.
+
+  Theorem C17c_secp256k1_sign_verifies_and_recovers_unconditional : forall (fuel : nat) (d z : Z) (cmp : bool) (text magic : bytes),
+    d mod n <> 0 -> sign_hash fuel d z cmp = Ret text ->
+    pair_for text z = Ret (esmul c d G, cmp) /\
+    exists x y, ecoords (esmul c d G) = Some (x, y) /\
+      verify (KPair x y) text magic None (Some z) = Ret true /\
+      forall sec, public_pair_to_sec x y cmp = Ret sec ->
+        verify (KHash (Some (hash160 sec))) text magic None (Some z) = Ret true /\
+        forall k, refers_to_key k = true ->
+          verify (KAddr k (Some (hash160 sec))) text magic None (Some z) = Ret true.
+  Proof. exact (C17c_sign_verifies_and_recovers g gen_k dsha256 hash160 secp256k1_M1 secp256k1_M4 secp256k1_nG_proved secp256k1_M2
+                  (secp256k1_side blind) (secp256k1_msg_side blind)). Qed.
+
+  Theorem C17c_secp256k1_sign_message_verifies_and_recovers_unconditional :
+    forall (fuel : nat) (magic : bytes) (d : Z) (cmp : bool) (m text : bytes),
+    d mod n <> 0 -> sign_msg fuel magic d cmp m = Ret text ->
+    exists z, hash_for_signing dsha256 magic m = Ret z /\ pair_for text z = Ret (esmul c d G, cmp) /\
+    exists x y, ecoords (esmul c d G) = Some (x, y) /\
+      verify (KPair x y) text magic (Some m) None = Ret true /\
+      forall sec, public_pair_to_sec x y cmp = Ret sec ->
+        verify (KHash (Some (hash160 sec))) text magic (Some m) None = Ret true /\
+        forall k, refers_to_key k = true ->
+          verify (KAddr k (Some (hash160 sec))) text magic (Some m) None = Ret true.
+  Proof. exact (C17c_sign_message_verifies_and_recovers g gen_k dsha256 hash160 secp256k1_M1 secp256k1_M4 secp256k1_nG_proved secp256k1_M2
+                  (secp256k1_side blind) (secp256k1_msg_side blind)). Qed.
+
+  Theorem C17c_secp256k1_other_key_fails_unconditional :
+    forall (fuel : nat) (magic : bytes) (d : Z) (cmp : bool) (m text : bytes) (key : keyref),
+    d mod n <> 0 -> sign_msg fuel magic d cmp m = Ret text ->
+    verify key text magic (Some m) None = Ret true ->
+    exists x y, ecoords (esmul c d G) = Some (x, y) /\
+      match key with
+      | KPair x' y' => x' = x /\ y' = y
+      | KHash h => exists sec, public_pair_to_sec x y cmp = Ret sec /\ h = Some (hash160 sec)
+      | KAddr k h => refers_to_key k = true /\ exists sec, public_pair_to_sec x y cmp = Ret sec /\ h = Some (hash160 sec)
+      | KUnparseable => False
+      end.
+  Proof. exact (C17c_other_key_fails g gen_k dsha256 hash160 secp256k1_M1 secp256k1_M4 secp256k1_nG_proved secp256k1_M2
+                  (secp256k1_side blind) (secp256k1_msg_side blind)). Qed.
+
+  Theorem C17c_secp256k1_other_hash_fails_unconditional : forall (fuel : nat) (d z : Z) (cmp : bool) (text magic : bytes) (x y z' : Z),
+    d mod n <> 0 -> sign_hash fuel d z cmp = Ret text -> ecoords (esmul c d G) = Some (x, y) ->
+    (verify (KPair x y) text magic None (Some z') = Ret true <-> z' mod n = z mod n).
+  Proof. exact (C17c_other_hash_fails g gen_k dsha256 hash160 secp256k1_M1 secp256k1_M4 secp256k1_nG_proved secp256k1_M2
+                  (secp256k1_side blind) (secp256k1_msg_side blind)). Qed.
+End Secp256k1_proved.
+Print Assumptions C17c_secp256k1_inverse_is_C02.
+Print Assumptions C17c_secp256k1_group_premises_unconditional.
+Print Assumptions C17c_secp256k1_G_is_C02_unconditional.
+Print Assumptions C17c_secp256k1_sign_verifies_and_recovers_unconditional.
+Print Assumptions C17c_secp256k1_sign_message_verifies_and_recovers_unconditional.
+Print Assumptions C17c_secp256k1_other_key_fails_unconditional.
+Print Assumptions C17c_secp256k1_other_hash_fails_unconditional.
 
 (* ---- non-vacuity: the toy generator of Props/C01compose.v (y^2 = x^3 + 7 over F_43, G = (2,12), n = 31): NO hypothesis ---- *)
 Section Toy43.
